@@ -46,6 +46,7 @@ type vgoCmd struct {
 type vgoSched struct {
 	ID   string   `json:"id"`
 	Inst []string `json:"inst"`
+	Late []string `json:"late"` // instances that are not members at the start (Join command)
 	Cmds []vgoCmd `json:"cmds"`
 }
 
@@ -54,6 +55,7 @@ type vgoInst struct {
 	sm   *shardManagerImpl
 	ml   *memberlist.Memberlist
 	left bool
+	late bool // not a member yet
 	// pending goroutines parked at a gate, by key
 	parked map[string]*vlfGate
 }
@@ -63,10 +65,10 @@ type vgoHarness struct {
 	enc      *json.Encoder
 	seq, run int
 	inst     map[string]*vgoInst
-	gidInst  map[int64]string            // goroutine -> instance it acts for
-	gidKey   map[int64]string            // goroutine -> gate key it should park under
-	captured map[string][]byte           // announcement key -> real bytes
-	lastCap  map[int64][]byte            // goroutine -> last captured announcement
+	gidInst  map[int64]string  // goroutine -> instance it acts for
+	gidKey   map[int64]string  // goroutine -> gate key it should park under
+	captured map[string][]byte // announcement key -> real bytes
+	lastCap  map[int64][]byte  // goroutine -> last captured announcement
 	snaps    map[string][]byte
 	snapKeys []string
 	merged   map[string]bool
@@ -84,7 +86,9 @@ type vgoMsg struct {
 	delivered map[string]bool
 }
 
-func vgoShard(k int) history.ClusterShardID { return history.ClusterShardID{ClusterID: 2, ShardID: int32(k)} }
+func vgoShard(k int) history.ClusterShardID {
+	return history.ClusterShardID{ClusterID: 2, ShardID: int32(k)}
+}
 
 func (h *vgoHarness) emit(ev map[string]interface{}) {
 	h.seq++
@@ -196,11 +200,14 @@ func (h *vgoHarness) reset(sc *vgoSched) {
 		sm.started = true
 		h.inst[n] = &vgoInst{name: n, sm: sm, ml: ml, parked: map[string]*vlfGate{}}
 	}
-	// "instances that know each other": everybody has merged everybody's (empty) state
+	for _, n := range sc.Late {
+		h.inst[n].late = true
+	}
+	// "instances that know each other": every member has merged every member's (empty) state
 	for _, a := range sc.Inst {
 		st := h.inst[a].sm.delegate.LocalState(false)
 		for _, b := range sc.Inst {
-			if a != b {
+			if a != b && !h.inst[a].late && !h.inst[b].late {
 				h.inst[b].sm.delegate.MergeRemoteState(st, false)
 			}
 		}
@@ -258,7 +265,9 @@ func (h *vgoHarness) view() map[string]interface{} { // caller holds mu
 	return out
 }
 
-func annKey(from, typ string, sh, ts int) string { return fmt.Sprintf("%s/%s/%d/%d", from, typ, sh, ts) }
+func annKey(from, typ string, sh, ts int) string {
+	return fmt.Sprintf("%s/%s/%d/%d", from, typ, sh, ts)
+}
 
 func (h *vgoHarness) exec(c vgoCmd) bool {
 	in := h.inst[c.I]
@@ -379,6 +388,31 @@ func (h *vgoHarness) exec(c vgoCmd) bool {
 		if !to.left {
 			to.sm.delegate.MergeRemoteState(data, false)
 		}
+		return true
+	case "Join":
+		// the joiner's half of the push/pull: it merges every member's state now; the members' half (its state reaching
+		// them) is a state push in flight, delivered by a later Merge
+		if !in.late {
+			return false
+		}
+		names := []string{}
+		for n, o := range h.inst {
+			if n != c.I && !o.late && !o.left {
+				names = append(names, n)
+			}
+		}
+		sort.Strings(names)
+		for _, n := range names {
+			in.sm.delegate.MergeRemoteState(h.inst[n].sm.delegate.LocalState(true), true)
+		}
+		h.mu.Lock()
+		for _, n := range names {
+			k := fmt.Sprintf("%s>%s/%d", c.I, n, c.Val)
+			h.snaps[k] = in.sm.delegate.LocalState(true)
+			h.snapKeys = append(h.snapKeys, k)
+		}
+		h.mu.Unlock()
+		in.late = false
 		return true
 	case "Leave":
 		in.left = true
@@ -540,13 +574,14 @@ func (s *vgoCapCli) Send(*adminservice.StreamWorkflowReplicationMessagesRequest)
 }
 
 type vgoRouteCase struct {
-	ID        int    `json:"id"`
-	Kind      string `json:"kind"` // msg | ack
-	HaveLocal bool   `json:"haveLocal"`
-	Owner     string `json:"owner"` // "" = nobody, "self", or peer name
-	Addr      bool   `json:"addr"`
-	Stream    bool   `json:"stream"`
-	Memberlist bool  `json:"memberlist"`
+	ID         int    `json:"id"`
+	Kind       string `json:"kind"` // msg | ack
+	HaveLocal  bool   `json:"haveLocal"`
+	Closed     bool   `json:"closed"` // the local channel is registered but already closed
+	Owner      string `json:"owner"`  // "" = nobody, "self", or peer name
+	Addr       bool   `json:"addr"`
+	Stream     bool   `json:"stream"`
+	Memberlist bool   `json:"memberlist"`
 }
 
 func vgoRunRoute(rc vgoRouteCase) map[string]interface{} {
@@ -575,6 +610,10 @@ func vgoRunRoute(rc vgoRouteCase) map[string]interface{} {
 		} else {
 			sm.SetLocalAckChan(src, localAck)
 		}
+	}
+	if rc.HaveLocal && rc.Closed {
+		close(localMsg)
+		close(localAck)
 	}
 	if rc.Owner != "" {
 		name := rc.Owner
@@ -613,7 +652,7 @@ func vgoRunRoute(rc vgoRouteCase) map[string]interface{} {
 	}()
 	nLocal := len(localMsg) + len(localAck)
 	nRemote := srv.got + cli.got
-	return map[string]interface{}{"ev": "Route", "id": rc.ID, "kind": rc.Kind, "haveLocal": rc.HaveLocal, "owner": rc.Owner, "addr": rc.Addr,
+	return map[string]interface{}{"ev": "Route", "id": rc.ID, "kind": rc.Kind, "haveLocal": rc.HaveLocal, "closed": rc.Closed, "owner": rc.Owner, "addr": rc.Addr,
 		"stream": rc.Stream, "memberlist": rc.Memberlist, "result": res, "local": nLocal, "remote": nRemote, "panic": pan}
 }
 
